@@ -6,7 +6,7 @@ STATE_NAMES = ["S", "I", "R", "W", "Z"]
 PARAM_NAMES = ["beta", "gamma", "mu", "kappa", "omega"]
 
 RATE_TEMPLATES = ["linear", "massaction", "constant", "saturating", "exponential",
-                  "periodic", "derived", "power"]
+                  "periodic", "derived", "power", "stateonly"]
 MAGS = ["1", "2", "3", "P", "P/2"]
 
 
@@ -45,6 +45,8 @@ def rate_expr(tmpl, p, q, X, Y, dname):
         return "%s*%s" % (dname, X)
     if tmpl == "power":
         return "%s*%s**2/(%s+%s)" % (p, X, q, X)
+    if tmpl == "stateonly":       # a parameter-free product of two states with unit coefficient
+        return "%s*%s" % (X, Y)
     raise ValueError(tmpl)
 
 
